@@ -152,8 +152,8 @@ pub fn hex(b: &[u8]) -> String {
 /// and events; validating twice gives identical results.
 pub fn c01_validate_matches(ctx: &mut Ctx, p: &Node, result: &ExecutionResult, changes: &Changes) {
     ctx.scope("C01");
-    let v1 = p.exec.exec.validate(&result.block);
-    let v2 = p.exec.exec.validate(&result.block);
+    let v1 = p.exec.validate_block(&result.block);
+    let v2 = p.exec.validate_block(&result.block);
     match (v1, v2) {
         (Ok(a), Ok(b)) => {
             let (ra, ca) = a.into();
@@ -191,6 +191,18 @@ pub fn c01_validate_matches(ctx: &mut Ctx, p: &Node, result: &ExecutionResult, c
             });
         }
     }
+}
+
+fn metered_size(t: &Transaction) -> u64 {
+    use fuel_core_types::fuel_tx::Chargeable;
+    (match t {
+        Transaction::Script(t) => t.metered_bytes_size(),
+        Transaction::Create(t) => t.metered_bytes_size(),
+        Transaction::Upgrade(t) => t.metered_bytes_size(),
+        Transaction::Upload(t) => t.metered_bytes_size(),
+        Transaction::Blob(t) => t.metered_bytes_size(),
+        Transaction::Mint(_) => 0,
+    }) as u64
 }
 
 fn total_fee(s: &TransactionExecutionStatus) -> u64 {
@@ -257,7 +269,8 @@ pub fn c03_mint_and_limits(ctx: &mut Ctx, sim: &Sim, _p: &Node, result: &Executi
     ctx.check("C03", "block-gas-limit-exceeded", gas <= sim.spec.params.block_gas_limit(), || {
         format!("total gas used {gas} > block gas limit {}", sim.spec.params.block_gas_limit())
     });
-    let size: u64 = txs.iter().take(n - 1).map(|t| t.size() as u64).sum();
+    // the consensus limit is on the metered size (what the executor and the fee rules use)
+    let size: u64 = txs.iter().take(n - 1).map(metered_size).sum();
     ctx.check(
         "C03",
         "block-size-limit-exceeded",
@@ -414,7 +427,7 @@ pub fn c04_skipped_and_reverted(
             coinbase_recipient: sim.spec.coinbase_recipient.unwrap_or_default(),
             gas_price: sim.spec.gas_price,
         };
-        match p.exec.exec.produce_without_commit_with_source_direct_resolve(comp) {
+        match p.exec.produce_once(comp) {
             Ok(empty) => {
                 let (er, ec) = empty.into();
                 let a = canon_changes(&ec);
@@ -610,10 +623,17 @@ pub fn byzantine_variants(
             ("C03", "bad-mint-amount-accepted", "mint amount changed".into())
         }
         1 => {
+            // In validation the block gas price IS the mint's gas price (validators have no
+            // other source for it), so a different price is only detectable through the fees
+            // it implies: expect a rejection only when some transaction paid a fee.
+            let fees: u64 = statuses.iter().take(n - 1).map(total_fee).sum();
+            if fees == 0 {
+                return;
+            }
             let mut m = mint.clone();
-            *fuel_core_types::fuel_tx::field::MintGasPrice::gas_price_mut(&mut m) = mint.gas_price().wrapping_add(1);
+            *fuel_core_types::fuel_tx::field::MintGasPrice::gas_price_mut(&mut m) = mint.gas_price().saturating_mul(3).saturating_add(7);
             new_txs[n - 1] = Transaction::Mint(m);
-            ("C03", "bad-mint-gas-price-accepted", "mint gas price changed".into())
+            ("C03", "bad-mint-gas-price-accepted", "mint gas price changed while transactions paid fees".into())
         }
         2 => {
             let mut m = mint.clone();
@@ -644,7 +664,6 @@ pub fn byzantine_variants(
             ("C06", "processed-tx-id-accepted", "an already executed transaction inserted".into())
         }
     };
-    let _ = statuses;
     // re-root the block so that header/tx-root consistency cannot be what rejects it
     let partial = PartialFuelBlock::new(partial_header(block), new_txs);
     let tampered = match Block::new(
@@ -659,7 +678,7 @@ pub fn byzantine_variants(
     ctx.scope(prop);
     ctx.fault("byzantine_block");
     ctx.ev(format!("  byzantine variant for {}: {what}", v.name));
-    let r = v.exec.exec.validate(&tampered);
+    let r = v.exec.validate_block(&tampered);
     ctx.check(prop, class, r.is_err(), || format!("validation accepted a block with {what}"));
 }
 
